@@ -39,36 +39,40 @@ struct SolverConfig {
         o.b("FMG", fmg).i("FMG_iterations", fmg_iters).i("FMG_cycle", fmg_cycle).i("maxIterations", maxIterations).i("norm", norm);
         o.num("abs_tol", abs_tol).num("rel_tol", rel_tol).i("threads", threads).num("thread_reduction", thread_reduction).b("with_exact", with_exact);
     }
+    // leave_defaults: a setter is only called when the value differs from the documented default of the option (the
+    // pointer-route constructor installs the parser defaults), the way an application would configure the solver
+    bool leave_defaults = false;
     void apply_options(GMGPolar& g) const
     {
-        g.R0(R0);
-        g.Rmax(ps.Rmax);
-        g.nr_exp(nr_exp);
-        g.ntheta_exp(ntheta_exp);
+        const bool all = !leave_defaults;
+        if (all || R0 != 1e-5) g.R0(R0);
+        if (all || ps.Rmax != 1.3) g.Rmax(ps.Rmax);
+        if (all || nr_exp != 5) g.nr_exp(nr_exp);
+        if (all || ntheta_exp != -1) g.ntheta_exp(ntheta_exp);
         g.anisotropic_factor(aniso);
-        g.divideBy2(divideBy2);
+        if (all || divideBy2 != 0) g.divideBy2(divideBy2);
         g.write_grid_file(false);
         g.load_grid_file(false);
-        g.DirBC_Interior(dirbc);
-        g.FMG(fmg);
-        g.FMG_iterations(fmg_iters);
-        g.FMG_cycle(static_cast<MultigridCycleType>(fmg_cycle));
-        g.extrapolation(static_cast<ExtrapolationType>(extrapolation));
-        g.maxLevels(maxLevels);
-        g.multigridCycle(static_cast<MultigridCycleType>(cycle));
-        g.preSmoothingSteps(pre);
-        g.postSmoothingSteps(post);
-        g.maxIterations(maxIterations);
-        g.residualNormType(static_cast<ResidualNormType>(norm));
+        if (all || dirbc) g.DirBC_Interior(dirbc);
+        if (all || fmg) g.FMG(fmg);
+        if (all || fmg_iters != 2) g.FMG_iterations(fmg_iters);
+        if (all || fmg_cycle != 0) g.FMG_cycle(static_cast<MultigridCycleType>(fmg_cycle));
+        if (all || extrapolation != 0) g.extrapolation(static_cast<ExtrapolationType>(extrapolation));
+        if (all || maxLevels != -1) g.maxLevels(maxLevels);
+        if (all || cycle != 0) g.multigridCycle(static_cast<MultigridCycleType>(cycle));
+        if (all || pre != 1) g.preSmoothingSteps(pre);
+        if (all || post != 1) g.postSmoothingSteps(post);
+        if (all || maxIterations != 150) g.maxIterations(maxIterations);
+        if (all || norm != 0) g.residualNormType(static_cast<ResidualNormType>(norm));
         g.absoluteTolerance(abs_tol);
         g.relativeTolerance(rel_tol);
         g.verbose(0);
         g.paraview(false);
-        g.maxOpenMPThreads(threads);
+        if (all || threads != 1) g.maxOpenMPThreads(threads);
         g.threadReductionFactor(thread_reduction);
-        g.stencilDistributionMethod(strategy ? StencilDistributionMethod::CPU_GIVE : StencilDistributionMethod::CPU_TAKE);
-        g.cacheDensityProfileCoefficients(cache_prof);
-        g.cacheDomainGeometry(cache_geo);
+        if (all || strategy != 0) g.stencilDistributionMethod(strategy ? StencilDistributionMethod::CPU_GIVE : StencilDistributionMethod::CPU_TAKE);
+        if (all || !cache_prof) g.cacheDensityProfileCoefficients(cache_prof);
+        if (all || !cache_geo) g.cacheDomainGeometry(cache_geo);
     }
     // pointer route: input functions built by the harness's own table
     std::unique_ptr<GMGPolar> make_api() const
